@@ -139,6 +139,12 @@ pub fn alphabet_at(level: Level, k: usize, base: u16) -> Vec<Stmt> {
             a.push(Stmt::If(i_lt_2(), Branch::Stmts(vec![s.clone(), marker()]), None));
             a.push(Stmt::If(i_lt_2(), Branch::Stmts(vec![s.clone(), marker()]), Some(Branch::Stmts(vec![marker()]))));
         }
+        // branches of several statements that allocate labels of their own and end the run
+        let loop_then_end = vec![for_("J", 1, 1, None), Stmt::Next(vec![]), Stmt::End];
+        a.push(Stmt::If(i_lt_2(), Branch::Stmts(loop_then_end.clone()), None));
+        a.push(Stmt::If(i_lt_2(), Branch::Stmts(vec![marker()]), Some(Branch::Stmts(loop_then_end))));
+        a.push(Stmt::If(i_lt_2(), Branch::Stmts(vec![Stmt::Gosub(first), Stmt::End]), None));
+        a.push(Stmt::If(i_lt_2(), Branch::Stmts(vec![marker(), Stmt::Gosub(last), Stmt::Stop]), Some(Branch::Stmts(vec![Stmt::Gosub(last), Stmt::End]))));
         // nested IF: ELSE binds to the nearest IF
         a.push(Stmt::If(
             i_lt_2(),
